@@ -102,6 +102,23 @@ def check(run):
     # the symbol table run_sympify parses H^2 with (and integrates 1/sqrt(H^2) under): sqrt / pow / log act on absolute values, as in the generation stage
     from vlib import deductive as D2
     sfailed = D2.symtab_obligations(run)
+    # the pair (expression, integrated) run_sympify hands to get_pred, for sympy.integrate returning and raising; time_limit through its contract (E4 / E5), discharged here as well
+    from contracts import c_pantheon
+    from pyvc import excedge
+    pfailed = []
+    for rz in (False, True):
+        st_, f_, _e = D2.verify_function(run, "fitting/likelihood.py", "PanthLikelihood.run_sympify", (lambda rz=rz: c_pantheon.run_sympify_pair_contract(rz)), timeout_ms=8000,
+                                         tag="pair/%s" % ("integrate raises" if rz else "integrate returns"),
+                                         note="region: the `if try_integration:` statement and the return; sympy.integrate / .has opaque; time_limit adds no exception of its own (its contract)")
+        pfailed += f_
+    if D2.canary(run, "fitting/likelihood.py", "PanthLikelihood.run_sympify", (lambda: c_pantheon.run_sympify_pair_contract(False))) is False:
+        raise CheckerError("canary verified: engine vacuous on PanthLikelihood.run_sympify")
+    tlfailed = D2.structural_generic(run, ["generation/simplifier.py"], excedge.time_limit_obligations, "pyvc.excedge (AST analysis)",
+                                     "contract of time_limit that run_sympify relies on: the alarm is cancelled on every way out, the context manager raises nothing of its own")
+    D2.report_structural(run, tlfailed, "time_limit", "pyvc/excedge.py")
+    if pfailed and not run.violations:
+        from checks.C14 import report_unproved
+        report_unproved(run, pfailed, False, "likelihood.PanthLikelihood.run_sympify (pair handed to get_pred)")
     D2.report_structural(run, sfailed, "symtab", "pyvc/symtab.py")
     return run.finish("other", META["structural"] + " " + META["text"], CHECKER,
                       rule="cases = (H^2 family, parameter vector, redshift sample) triples and (string, parameters, sample) triples; distinct_nontrivial = "
